@@ -106,7 +106,14 @@ func cmdStrCases(args []string) {
 		default:
 			fatal("unknown function %s", fn)
 		}
-		c["src"] = "import \"strings\"\n" + src
+		// every second call runs AFTER other uses of the library and of the helper routines in the same script (round 16: the substring helper left a stale
+		// result behind for an empty subject; a script with one call cannot see that); the warm-up prints nothing, so the expectation is unchanged
+		warm := ""
+		if id, _ := c["id"].(string); (len(sa) > 0 && sa[0] == "") || (len(id) > 0 && (len(id)+int(id[len(id)-1]))%2 == 0) {
+			warm = "w0 := \"warm up\"\nw1 := w0[1:4] + w0[:2] + w0[5]\nw2 := strings.HasPrefix(w0, \"wa\") && strings.Contains(w1, \"rm\")\nw3 := strings.Replace(w0, \"m\", \"mm\", -1) + strings.TrimSuffix(w0, \"up\")\n" +
+				"w4 := strings.Split(w3, \" \")\nw5 := strings.Join(w4, \"-\") + strings.Repeat(w1, 2)\nw6 := w0[0:3]\nif len(w5) < 0 || w2 == false || w6 == \"\" {\n\tprint(\"never\")\n}\n"
+		}
+		c["src"] = "import \"strings\"\n" + warm + src
 		c["go"] = want
 	}
 	writeCases(args[1], cases)
